@@ -82,7 +82,7 @@ def run(ctx):
     ]
     ctx.obligations_or_violation()
     quick = ctx.tier == "quick"
-    terms, jsons, err = gl.run_farm(ctx, "c04", n=40 if quick else 1500, corpus=True)
+    terms, jsons, err = gl.run_batches(ctx, "c04", 40, 10, 150)
     if err:
         ctx.report({"unchecked": "generator farm run against the current tree", "detail": err},
                    {"kind": "harness"}, failing_input=False)
@@ -95,7 +95,7 @@ def run(ctx):
         return
     for i, code in bad:
         j = jsons[i]
-        if ctx.nreplay < 2 and not known(ctx, j):
+        if ctx.nreplay < 1 and not known(ctx, j):
             j = gl.minimise(ctx, "c04", CASE_TYPE, JUDGE, j, code)
         rep = {"case": gl.slim(j), "definition_file": gl.single_enum_file(j) if "/minimised" not in j["kind"] else j["file"],
                "differences": explain(j),
